@@ -140,6 +140,36 @@ def tracks_of(trajs):
     return tracks
 
 
+DEEP_SHRINK = 300.0     # cumulative height shrink beyond which the f32 covariance is known to drift (own key)
+
+
+def shrink_ratio(tr, upto):
+    """largest measured height so far / smallest measured height so far, over the first `upto` operations (box)"""
+    if tr["ty"] != "box":
+        return 1.0
+    hs = [tr["z0"][4]] + [o[4] for o in tr["ops"][:upto] if o is not None]
+    best = 1.0
+    hi = hs[0]
+    for h in hs:
+        hi = max(hi, h)
+        if h > 0:
+            best = max(best, hi / h)
+    return best
+
+
+def cmp_limit(tr):
+    """number of leading states on which the whole-run model comparison is made (before a deep shrink)"""
+    if tr["ty"] != "box":
+        return len(tr["states"])
+    hi = tr["z0"][4]
+    for k, o in enumerate(tr["ops"]):
+        if o is not None:
+            hi = max(hi, o[4])
+            if o[4] > 0 and hi / o[4] > DEEP_SHRINK:
+                return min(k + 1, len(tr["states"]))
+    return len(tr["states"])
+
+
 def single_spec(tr, nops=None, start=0):
     """spec line that replays one track (a vector history is replayed as a stand-alone point history)"""
     def b(xs):
@@ -386,6 +416,10 @@ def ql(xs):
     return coq_list([q_lit(Fraction(x)) for x in xs])
 
 
+def finite(xs):
+    return all(x == x and abs(x) != float("inf") for x in xs)
+
+
 def filt(tr, arith):
     if arith == "F":
         return "(%s_filter Fops (fq %s) (fq %s))" % (tr["ty"], q_lit(Fraction(tr["wp"])), q_lit(Fraction(tr["wv"])))
@@ -476,8 +510,9 @@ def compare_run(tr, model, tolm, tolc):
     N = 2 * tr["n"]
     worst_m = worst_c = 0.0
     first = None
+    lim = cmp_limit(tr)
     for k, (mm, mc, _) in enumerate(model):
-        if mm is None:
+        if mm is None or k >= lim:
             continue
         st = tr["states"][k]
         sc = mean_scales(tr, mm)
@@ -669,8 +704,9 @@ def run(chk):
     if os.path.exists(model_vo):
         try:
             model_stage(chk, tracks, by, stats, wr, disagreements)
-        except RuntimeError as e:
-            chk.broken.append("model evaluation failed: %s" % str(e)[-1500:])
+        except Exception as e:      # noqa: BLE001 - the oracle's verdict below must be delivered whatever happens here
+            import traceback
+            chk.broken.append("model evaluation failed: %s" % (traceback.format_exc()[-1500:] if not isinstance(e, RuntimeError) else str(e)[-1500:]))
     else:
         chk.broken.append("model not built: Model/Kalman.vo missing")
     chk.log("model: %s; worst error/allowance %s; disagreements %d" % (stats, {k: round(v, 3) for k, v in wr.items()}, len(disagreements)))
@@ -720,6 +756,8 @@ def run(chk):
         for tid, (step, key, detail) in oracle_fail:
             tr = tmap[tid]
             cls = "C07:%s:%s" % (tr["ty"], key)
+            if key in ("cov-not-spd", "cov-not-symmetric", "distance-panics") and shrink_ratio(tr, step) > DEEP_SHRINK:
+                cls += ":deep-shrink"
             if cls in seen:
                 continue
             seen.add(cls)
@@ -745,7 +783,7 @@ def run(chk):
                 break
     for key, what, rep in violations:
         chk.violation(key, what, rep)
-    if not violations and (disagreements or chk.broken):
+    if (disagreements or chk.broken) and not chk.violations:
         what = "proof or correspondence no longer checks: " + "; ".join(b.split("\n")[0][:200] for b in chk.broken)
         rep = {"broken": chk.broken}
         if disagreements:
@@ -806,12 +844,15 @@ def model_stage(chk, tracks, cost_by, stats, wr, disagreements):
         N = 2 * tr["n"]
         for k in sorted(set(tr["covsteps"][::5] + tr["covsteps"][-1:])):
             st = tr["states"][k]
+            if not (finite(st["mean"]) and finite(st["cov"])):
+                stats["nonfinite_states_skipped"] = stats.get("nonfinite_states_skipped", 0) + 1
+                continue
             mq = ql(st["mean"])
             Pq = coq_list([ql(r) for r in mat(st["cov"], N)])
             exprs.append("(q_dist_on %s %s %s %s, f_dist_on %s %s %s %s)" % (filt(tr, "Q"), mq, Pq, ql(st["probe"]),
                                                                            filt(tr, "F"), mq, Pq, ql(st["probe"])))
             meta.append(("D", ti, k))
-            if k >= 1:
+            if k >= 1 and finite(tr["states"][k - 1]["mean"]) and finite(tr["states"][k - 1]["cov"]):
                 pre = tr["states"][k - 1]
                 op = tr["ops"][k - 1]
                 exprs.append("q_step_on %s %s %s %s" % (filt(tr, "Q"), ql(pre["mean"]), coq_list([ql(r) for r in mat(pre["cov"], N)]),
